@@ -251,23 +251,55 @@ func metaAndMdat(c *Ctx, at int) []*bnode {
 	if c.Rng.Intn(10) == 0 {
 		exifItem = exifItem[:c.Rng.Intn(len(exifItem)+1)]
 	}
+	// extent counts: mostly one extent per item; sometimes none, or several (only the first is used by the reader)
+	extentCounts := [3]int{1, 1, 1}
+	extraItem := -1
+	if c.Rng.Intn(3) == 0 {
+		extraItem = c.Rng.Intn(3)
+	}
+	for k := range extentCounts {
+		switch c.Rng.Intn(12) {
+		case 0, 1:
+			extentCounts[k] = 0
+		case 2:
+			extentCounts[k] = 2
+		case 3:
+			extentCounts[k] = 3
+		}
+	}
+	extentFill := rbytes(c, 32)
+	if c.Rng.Intn(2) == 0 {
+		extentFill = make([]byte, 32)
+	}
 	build := func(exifOff uint64) *bnode {
 		p := []byte{byte(osz<<4 | lsz), byte(bsz << 4)}
 		items := [][3]uint64{{9, 5000, 100}, {uint64(exifID), exifOff, uint64(len(exifItem))}}
 		if c.Rng.Intn(2) == 0 {
 			items[0], items[1] = items[1], items[0]
 		}
+		if extraItem >= 0 {
+			// a third item (no extents, or several) at a position of its own
+			items = append(items, [3]uint64{11, 7000, 50})
+			items[extraItem], items[2] = items[2], items[extraItem]
+		}
 		p = binary.BigEndian.AppendUint16(p, uint16(len(items)))
-		for _, it := range items {
+		for k, it := range items {
 			p = binary.BigEndian.AppendUint16(p, uint16(it[0]))
 			if ver > 0 {
 				p = append(p, 0, 0)
 			}
 			p = append(p, 0, 0)
 			p = putN(p, bsz, 0)
-			p = append(p, 0, 1)
-			p = putN(p, osz, it[1])
-			p = putN(p, lsz, it[2])
+			cnt := extentCounts[k]
+			p = append(p, 0, byte(cnt))
+			for j := 0; j < cnt; j++ {
+				if j == 0 {
+					p = putN(p, osz, it[1])
+					p = putN(p, lsz, it[2])
+				} else {
+					p = append(p, extentFill[:osz+lsz]...)
+				}
+			}
 		}
 		return &bnode{typ: "iloc", prefix: full(ver), payload: p}
 	}
